@@ -7,6 +7,7 @@ package main
 // clients and can abandon a hung or dead worker.
 
 import (
+	"io"
 	"bufio"
 	"crypto/tls"
 	"fmt"
@@ -39,6 +40,7 @@ type worker struct {
 	holdCh   chan struct{} // non-nil while OnClose is held
 	tlsConf  *tls.Config
 	busy     net.Listener
+	busyServer *gldap.Server // addr=dup: the gldap server that already listens on the address
 	stops    int64
 	runOpts  []gldap.Option
 	dir      *testdirectory.Directory
@@ -140,15 +142,19 @@ func (w *worker) runScript(kind string, rw *gldap.ResponseWriter, r *gldap.Reque
 					break
 				}
 			}
-		case strings.HasPrefix(st, "F") || strings.HasPrefix(st, "E") || strings.HasPrefix(st, "X"):
+		case strings.HasPrefix(st, "F") || strings.HasPrefix(st, "E") || strings.HasPrefix(st, "X") || strings.HasPrefix(st, "S"):
 			// F<n>x<size>: n identifiable frames "<msgid>:<i>:" padded to size, as SearchResultDone;
 			// E: as SearchResultEntry (identity in the DN); X: entry, done, general response in turn
 			var n, size int
 			fmt.Sscanf(st[1:], "%dx%d", &n, &size)
 			for i := 0; i < n; i++ {
 				diag := fmt.Sprintf("%d:%d:", msgid, i)
-				if len(diag) < size {
-					diag += strings.Repeat("p", size-len(diag))
+				want := size
+				if st[0] == 'S' {
+					want = size + i // S<n>x<size>: sizes size, size+1, ..., size+n-1 (a sweep across a length boundary)
+				}
+				if len(diag) < want {
+					diag += strings.Repeat("p", want-len(diag))
 				}
 				var resp gldap.Response
 				kindOf := 1
@@ -176,6 +182,11 @@ func (w *worker) runScript(kind string, rw *gldap.ResponseWriter, r *gldap.Reque
 				}
 				w.ev("h-wrote %d %d", msgid, i)
 			}
+		case st == "pw":
+			// a panic INSIDE ResponseWriter.Write: the response's encoding panics (a nil control)
+			d := r.NewBindResponse(gldap.WithResponseCode(gldap.ResultSuccess))
+			d.SetControls(nil)
+			_ = rw.Write(d)
 		case st == "hs":
 			if err := r.StartTLS(w.tlsConf); err != nil {
 				w.ev("h-starttls-err %d %d", r.ConnectionID(), r.ID)
@@ -258,7 +269,7 @@ func cmdWorker(args []string) int {
 				w.ev("ready %v", w.srv.Ready())
 			}
 		case "portprobe":
-			if w.busy != nil || !strings.Contains(w.addr, ":") {
+			if w.busy != nil || w.busyServer != nil || !strings.Contains(w.addr, ":") {
 				// the port is held by the harness itself (or there is no port): the
 				// server never had a listener of its own
 				w.ev("port free")
@@ -342,7 +353,16 @@ func (w *worker) start(opts []string) {
 	}
 	var sopts []gldap.Option
 	sd, _ := strconv.Atoi(o["stopdelay"])
-	sopts = append(sopts, gldap.WithLogger(&parkLogger{Logger: hclog.New(&hclog.LoggerOptions{Level: hclog.Off}), w: w, stopDelay: time.Duration(sd) * time.Millisecond, noPark: o["nopark"] == "1"}))
+	// loglevel=debug|trace: everything gldap does only when its logger is at that level (packet
+	// dumps of requests and responses, hex dumps) runs; the output is thrown away
+	lvl := hclog.Off
+	switch o["loglevel"] {
+	case "debug":
+		lvl = hclog.Debug
+	case "trace":
+		lvl = hclog.Trace
+	}
+	sopts = append(sopts, gldap.WithLogger(&parkLogger{Logger: hclog.New(&hclog.LoggerOptions{Level: lvl, Output: io.Discard}), w: w, stopDelay: time.Duration(sd) * time.Millisecond, noPark: o["nopark"] == "1"}))
 	if o["recovery"] == "0" {
 		sopts = append(sopts, gldap.WithDisablePanicRecovery())
 	}
@@ -374,17 +394,37 @@ func (w *worker) start(opts []string) {
 	h := func(kind string) gldap.HandlerFunc {
 		return func(rw *gldap.ResponseWriter, r *gldap.Request) { w.runScript(kind, rw, r) }
 	}
-	if o["dflt"] != "1" {
+	if o["dflt"] != "1" && o["dflt"] != "2" {
 		_ = mux.Search(h("n"))
 		_ = mux.Bind(h("n"))
 		_ = mux.Modify(h("n"))
 		_ = mux.Add(h("n"))
 		_ = mux.Delete(h("n"))
-	} else {
+	} else if o["dflt"] == "1" {
 		// the ordinary operations reach their handler through the mux's fall-back path
 		_ = mux.DefaultRoute(h("n"))
 	}
-	_ = mux.ExtendedOperation(h("t"), gldap.ExtendedOperationStartTLS)
+	if o["dflt"] != "2" {
+		_ = mux.ExtendedOperation(h("t"), gldap.ExtendedOperationStartTLS)
+	} else {
+		// dflt=2: the default route is the only route there is - also for StartTLS requests
+		// (an extended request is what is left when it is none of the other operations)
+		_ = mux.DefaultRoute(func(rw *gldap.ResponseWriter, r *gldap.Request) {
+			kind := "t"
+			if _, err := r.GetSimpleBindMessage(); err == nil {
+				kind = "n"
+			} else if _, err := r.GetSearchMessage(); err == nil {
+				kind = "n"
+			} else if _, err := r.GetModifyMessage(); err == nil {
+				kind = "n"
+			} else if _, err := r.GetAddMessage(); err == nil {
+				kind = "n"
+			} else if _, err := r.GetDeleteMessage(); err == nil {
+				kind = "n"
+			}
+			w.runScript(kind, rw, r)
+		})
+	}
 	if o["unbind"] == "1" {
 		_ = mux.Unbind(h("u"))
 	}
@@ -438,6 +478,29 @@ func (w *worker) start(opts []string) {
 			l.Close()
 			w.autoAddr = true
 		}
+	case "dup":
+		// the address is in use by ANOTHER gldap server (same process, same options): the second
+		// Run on it must fail like on any other busy port
+		first, err := gldap.NewServer(gldap.WithLogger(hclog.New(&hclog.LoggerOptions{Level: hclog.Off})))
+		if err != nil {
+			w.ev("start-err %v", err)
+			return
+		}
+		m0, _ := gldap.NewMux()
+		_ = m0.DefaultRoute(func(rw *gldap.ResponseWriter, r *gldap.Request) {})
+		_ = first.Router(m0)
+		l, err := net.Listen("tcp", "127.0.0.1:0")
+		if err != nil {
+			w.ev("start-err %v", err)
+			return
+		}
+		addr = l.Addr().String()
+		l.Close()
+		go func() { _ = first.Run(addr, runOpts...) }()
+		for i := 0; i < 2000 && !first.Ready(); i++ {
+			time.Sleep(time.Millisecond)
+		}
+		w.busyServer = first
 	case "bad":
 		addr = "127.0.0.1"
 	}
